@@ -22,6 +22,7 @@ if not os.path.exists(base + "/check"):
 dirs = sorted(glob.glob("/verif/seeded/C*-*"))
 if os.environ.get("SEED_ONLY"):
     dirs = [d for d in dirs if os.path.basename(d) in os.environ["SEED_ONLY"].split(",")]
+if True:
     sh("git -C %s checkout -q --detach && git -C %s reset -q --hard && git -C %s checkout -q --detach %s" % (base, base, base, subprocess.run("git -C /verif rev-parse HEAD", shell=True, capture_output=True, text=True).stdout.strip()))
 for i, d in enumerate(dirs):
     if i % nl != lane:
